@@ -133,7 +133,8 @@ func (h *Handler) available(lease *Lease, ip netip.Addr) bool {
 	return !h.inUse(lease, ip) && h.session.FindIP(ip) == nil
 }
 
-// inUse reports whether ip is the address of a lease held by a client other than lease.
+// inUse reports whether ip is taken by someone other than the lease's client: it is the address
+// of a lease held by another client, or the session has seen a host with a different MAC using it.
 // It looks at every lease: a free lease that still carries the address must not hide the active one.
 func (h *Handler) inUse(lease *Lease, ip netip.Addr) bool {
 	for _, l := range h.table {
@@ -141,7 +142,14 @@ func (h *Handler) inUse(lease *Lease, ip netip.Addr) bool {
 			return true
 		}
 	}
-	return false
+	return h.takenByOther(lease, ip)
+}
+
+// takenByOther reports whether the session tracks ip for a MAC other than the lease's client:
+// a host was seen using the address after it was offered or leased to this client.
+func (h *Handler) takenByOther(lease *Lease, ip netip.Addr) bool {
+	host := h.session.FindIP(ip)
+	return host != nil && !bytes.Equal(host.MACEntry.MAC, lease.Addr.MAC)
 }
 
 // allocIPOffer allocates a free IP to the lease entry
